@@ -18,7 +18,7 @@ RULE = (
     "precedence graphs. Non-trivial graph: acyclic with >= 2 orderings, or cyclic with >= 1 edge."
 )
 ASSUMPTIONS = ["permutation-filter reference refmodel/graphs.py:topo_orders"]
-BUDGET = {"quick": 200, "thorough": 1800}
+BUDGET = {"quick": 600, "thorough": 1800}
 
 
 def plan(tier, seed):
